@@ -16,6 +16,11 @@ import (
 	"github.com/fido-device-onboard/go-fdo/serviceinfo"
 )
 
+// maxDevmodModules bounds the module count a device may announce, so that the
+// announcement alone cannot make the owner allocate an arbitrary amount of
+// memory.
+const maxDevmodModules = 1024
+
 type devmodOwnerModule struct {
 	serviceinfo.Devmod
 	Modules []string
@@ -30,6 +35,9 @@ func (d *devmodOwnerModule) HandleInfo(ctx context.Context, messageName string, 
 		var numModules int
 		if err := cbor.NewDecoder(messageBody).Decode(&numModules); err != nil {
 			return err
+		}
+		if numModules < 0 || numModules > maxDevmodModules {
+			return fmt.Errorf("invalid devmod nummodules: %d", numModules)
 		}
 		d.Modules = make([]string, numModules)
 		return nil
@@ -71,6 +79,9 @@ func (d *devmodOwnerModule) parseModules(messageBody io.Reader) error {
 		// indicate the start index of the full module array to populate.
 		if idx := slices.Index(d.Modules, ""); idx != -1 && chunk.Start != idx {
 			chunk.Start = idx
+		}
+		if chunk.Len > len(d.Modules)-chunk.Start {
+			return fmt.Errorf("invalid devmod module chunk: more modules than announced")
 		}
 
 		copy(d.Modules[chunk.Start:chunk.Start+chunk.Len], chunk.Modules)
